@@ -8,6 +8,7 @@ import (
 
 	"verifharness/core"
 	"verifharness/props/c02"
+	"verifharness/props/c06"
 	"verifharness/props/c08"
 	"verifharness/props/c09"
 	"verifharness/props/c10"
@@ -15,12 +16,14 @@ import (
 	"verifharness/props/c12"
 	"verifharness/props/c13"
 	"verifharness/props/c14"
+	"verifharness/props/c15"
 	"verifharness/props/c17"
 	"verifharness/props/c18"
 )
 
 var checks = map[string]func(*core.Ctx) int{
 	"C02": c02.Run,
+	"C06": c06.Run,
 	"C08": c08.Run,
 	"C09": c09.Run,
 	"C10": c10.Run,
@@ -28,6 +31,7 @@ var checks = map[string]func(*core.Ctx) int{
 	"C12": c12.Run,
 	"C13": c13.Run,
 	"C14": c14.Run,
+	"C15": c15.Run,
 	"C17": c17.Run,
 	"C18": c18.Run,
 }
